@@ -8,6 +8,7 @@ import (
 	"path/filepath"
 	"regexp"
 	"strings"
+	"sync"
 
 	"verifharness/enga"
 	"verifharness/mc"
@@ -18,7 +19,8 @@ import (
 // detector, so the same harness bodies run free on a -race build of the harness.
 
 // C08RaceWorker is executed by bin/verifmc-race: honest prepare/process/finalize rounds
-// covering payloads with and without transactions and empty / non-empty mempools.
+// covering payloads with and without transactions and empty / non-empty mempools; every block is
+// also executed by two more instances concurrently.
 func C08RaceWorker(rounds int) {
 	w, err := enga.NewWorld(c08Cfg())
 	must(err)
@@ -37,6 +39,25 @@ func C08RaceWorker(rounds int) {
 		// a second replica checks the proposal concurrently with nothing else: Process on a fork
 		rep, err := w.Fork()
 		must(err)
+		// two further instances in this process execute the same block at the same time (several
+		// nodes / a node and its RPC simulations share one process image): anything they share is
+		// process-global state of the code under check
+		twinA, err := w.Fork()
+		must(err)
+		twinB, err := w.Fork()
+		must(err)
+		var twins sync.WaitGroup
+		for _, tw := range []*enga.World{twinA, twinB} {
+			tw := tw
+			twins.Add(1)
+			go func() {
+				defer twins.Done()
+				tw.Run(b)
+			}()
+		}
+		twins.Wait()
+		twinA.Close()
+		twinB.Close()
 		res := w.Run(b)
 		if res.Err == nil && res.Txs != nil {
 			_, _ = rep.N.Process(res.SimBlock, res.Txs)
